@@ -745,7 +745,7 @@ theorem declFacts (env : Env) (hb : BaseAgrees env) (s : Spec) (dr : Option Decl
     exact ⟨acc, b, _, h1, h2, denote_mk env s dr none fc arr attrs none b [] h3 rfl, h4, h5⟩
   | some ps =>
     simp only [WFo] at hpar
-    obtain ⟨hnamed, _, hwfs⟩ := hpar
+    obtain ⟨hnamed, _, hwfs, _⟩ := hpar
     simp only [RPo] at hrpo
     have hq : ∀ q ∈ ps, WF env q ∧ MT env q := fun q hq =>
       ⟨WFs_mem hwfs q hq, ih ps rfl q hq (WFs_mem hwfs q hq) (RPs_mem hrpo q hq)⟩
